@@ -301,8 +301,14 @@ def write_evidence(prop, tier, seed, cov, wall, violations):
         "wall_s": round(wall, 2),
         "violations": violations,
     }
-    os.makedirs(os.path.join(VERIF, "evidence"), exist_ok=True)
-    path = os.path.join(VERIF, "evidence", "%s.json" % prop.ID)
+    evdir = os.path.join(VERIF, "evidence")
+    scratch = os.environ.get("VERIF_REPO")
+    if scratch and os.path.realpath(scratch) != os.path.realpath("/repo"):
+        # a run against a scratch tree (a seeded change, an older commit) does not describe /repo: its record is
+        # kept away from the registered evidence files
+        evdir = os.path.join("/tmp", "vf_scratch_evidence")
+    os.makedirs(evdir, exist_ok=True)
+    path = os.path.join(evdir, "%s.json" % prop.ID)
     with open(path, "w") as f:
         json.dump(ev, f, indent=1, sort_keys=True, default=str)
     return path
